@@ -65,6 +65,8 @@ func scenarios(tier string) []svc.Scenario {
 		// two converters on one tag, the second attached after the first has converted: an import extends the
 		// stream while the job of the second converter is in flight
 		{Name: "converter-pair-on-one-tag", Converter: true, Program: []string{"import:P1", "addtag:tag/p=cport:1", "converters:tag/p=conv", "converters:tag/p=conv,conv2", "import:P3"}},
+		// a capture that only continues a stored stream: the newest index file holds nothing but an old, low id
+		{Name: "extension-only-capture", Program: []string{"import:P1+P2", "import:P6", "view.open:v1", "import:P4", "view.open:v2"}},
 		{Name: "two-tags", Program: []string{"addtag:tag/p=cport:1", "addtag:tag/d=cdata:foo3", "import:P1", "import:P3"}},
 	}
 	if tier == "thorough" {
